@@ -55,6 +55,7 @@ func c13(c *Ctx) {
 	r.Decides("the pair/shape validators run before any allowing answer on Create and Update alike; every erase of a native entry is paired with the store of the extended one; each priority class is returned only within its own Min..Max; the summary annotation is rewritten whenever it differs (size-aware equality) and copies Requests/Limits from the same side under the same name")
 	r.Declines("amount preservation for arbitrary quantities, idempotence as a round trip, equality of the summary annotation with the final spec")
 
+	c13wholeCPUs(c)
 	ext := c.P.Pkg("apis/extension")
 	var allPrio []string
 	if ext != nil {
